@@ -259,15 +259,21 @@ def run(ck, ix, tier):
     # ------------------------------------------------------------ (c) discarded conversions; conversion before reading
     PURE = {"to", "m_as", "to_base_units", "to_root_units", "_convert_magnitude_not_inplace", "convert", "to_reduced_units"}
     n_disc = 0
-    for mod in (NF, NQ):
-        for f in ix.module(mod).all_functions:
-            if not isinstance(f.node, ast.FunctionDef):
-                continue
-            for st in walk_local(f.node):
-                if isinstance(st, ast.Expr) and isinstance(st.value, ast.Call) and call_name(st.value) in PURE and isinstance(st.value.func, ast.Attribute):
-                    n_disc += 1
+    # package-wide: a conversion whose value is dropped is either a deliberate probe (the statement sits in a try body
+    # whose handler catches the conversion error: is_compatible_with) or a forgotten assignment
+    for f in ix.all_functions():
+        if not isinstance(f.node, ast.FunctionDef) or ".testsuite" in f.module.name:
+            continue
+        for st in walk_local(f.node):
+            if isinstance(st, ast.Expr) and isinstance(st.value, ast.Call) and call_name(st.value) in PURE and isinstance(st.value.func, ast.Attribute):
+                par = getattr(st, "_parent", None)
+                probe = isinstance(par, ast.Try) and st in par.body and any(h.type is not None and "DimensionalityError" in norm(h.type) for h in par.handlers)
+                n_disc += 1
+                if probe:
+                    ck.ok("G-ERR-d", f"{f.qualname}|conversion-used-as-probe", f.loc(st), "conversion used as a compatibility probe inside try/except DimensionalityError")
+                else:
                     ck.fail("G-ERR-d", f"{f.qualname}|discarded-conversion", f.loc(st), f"`{norm(st)[:90]}` computes a conversion and discards the result (the unconverted value is used afterwards)")
-    ck.ok("G-ERR-d", "numpy-implementations|scan", NF, f"scanned numpy_func.py and numpy/quantity.py for discarded pure conversions ({n_disc} found)")
+    ck.ok("G-ERR-d", "numpy-implementations|scan", NF, f"scanned the whole package for discarded pure conversions ({n_disc} found, probes inside try/except DimensionalityError are accepted)")
     # operands converted by _base_unit_if_needed must be read only afterwards
     for f in m.all_functions:
         if not isinstance(f.node, ast.FunctionDef):
